@@ -2084,7 +2084,9 @@ pub fn replay(ctx: &mut Ctx, case: &Value) {
 
 pub fn run(ctx: &mut Ctx) {
     ctx.report.rule = "part A: TopNComputer push sequences, non-trivial = more pushes than the buffer capacity 2·max(K,1) and at least one key tie; \
-        part B: (corpus, query, collector, K, offset, executor) tuples, non-trivial = more matches than K+offset (so that something is cut off); paging runs non-trivial = more than one page".into();
+        part B: (corpus, query, collector, K, offset, executor) tuples, non-trivial = more matches than K+offset (so that something is cut off); paging runs non-trivial = more than one page; \
+        part C: (corpus, query, callback policy, initial threshold, segment) driver runs, non-trivial = more than 128 matching documents of which at least one is not offered; \
+        part D: NaN-key / sentinel-score searches, non-trivial = at least one NaN key among more matches than K+offset (resp. more matches than K)".into();
     ctx.report.correspondence_obligations = vec![
         "TopNComputer::into_sorted_vec = model intoSortedVec (two select_nth behaviours) = sort-and-truncate".into(),
         "TopNComputer::threshold after every push = model threshold".into(),
@@ -2092,7 +2094,9 @@ pub fn run(ctx: &mut Ctx) {
         "paging over successive offsets enumerates every match exactly once".into(),
         "block_wand_single_scorer's callback sequence = Model/Wand.lean::wandSingle on the term's real blocks and bounds".into(),
         "Weight::for_each_pruning (block_wand_single_scorer / block_wand / block_wand_intersection) under constant, staircase and K-th-best callback policies = the exhaustive loop with the same callback (1-2 clause queries, bit-exact)".into(),
+        "Weight::for_each_pruning on 2-5 term unions / conjunctions = Model/BlockWand.lean::blockWand / blockWandInter run in Float32 on the terms' real postings, blocks and bounds (offered documents, score bits, final threshold; three callback policies), also where UB_max / UB_block fail".into(),
         "known bound failures (UB_max, UB_block) recomputed through the public postings API before attribution".into(),
+        "keys outside the model (NaN sort keys, scores not above Score::MIN): no panic, result size, no duplicates, true keys; attribution of the two known findings by their verified signatures".into(),
     ];
     if let Some(case) = ctx.replay.clone() {
         replay(ctx, &case);
